@@ -362,10 +362,11 @@ func genWCNF(t *rapid.T) WCNFCase {
 // LongCase is a text holding lines of more than 64 KiB (a clause or an objective over thousands of
 // variables), built from a few parameters so that its meaning is known by construction.
 type LongCase struct {
-	Format string `json:"format"` // opb | wcnf | explain
+	Format string `json:"format"` // opb | wcnf | explain | cnf-comment | explain-comment
 	N      int    `json:"n"`      // variables
 	Repeat int    `json:"repeat"` // how many times the literal list of the long clause is repeated
-	A, B   int    `json:"a"`      // weights: w_i = 1 + (i*A+B)%9
+	A      int    `json:"a"`      // weights: w_i = 1 + (i*A+B)%9
+	B      int    `json:"b"`
 	Forced []int  `json:"forced"` // opb: variables forced true by unit constraints
 }
 
@@ -462,6 +463,55 @@ func checkLong(c LongCase, o *vf.Obs) error {
 		if res.Status != solver.Sat || res.Weight != want {
 			return fmt.Errorf("ParseWCNF+Optimal = (%v, %d) on a text with a %d-byte hard clause, the optimum is %d by construction (0 means the hard clause was lost)", res.Status, res.Weight, longest, want)
 		}
+	case "cnf-comment", "explain-comment":
+		// a small CNF with very long comment lines (words, or numbers that would read as clauses) before the
+		// header and between the clauses; the meaning is that of the clauses alone
+		cls := [][]int{{1, 2}, {-1, 3}, {-2, -3}, {2, 3}}
+		word := func(i int) string {
+			if c.A%2 == 0 {
+				return fmt.Sprintf("%d ", 1+i%3)
+			}
+			return "lorem "
+		}
+		comment := func() string {
+			var cb strings.Builder
+			cb.WriteString("c ")
+			for i := 0; cb.Len() < c.N*c.Repeat; i++ {
+				cb.WriteString(word(i))
+			}
+			return cb.String()
+		}
+		line(comment())
+		line("p cnf 3 4")
+		for i, cl := range cls {
+			line(fmt.Sprintf("%d %d 0", cl[0], cl[1]))
+			if i == c.B%4 {
+				line(comment())
+			}
+		}
+		o.ClassIf(longest > 4096, "comment>4KiB")
+		o.ClassIf(longest > 65536, "line>64KiB")
+		if longest > 4096 {
+			o.Nontrivial()
+		}
+		if c.Format == "explain-comment" {
+			pb, err := explain.ParseCNF(strings.NewReader(sb.String()))
+			if err != nil {
+				return fmt.Errorf("explain.ParseCNF returns an error on a text with a %d-byte comment line: %v", longest, err)
+			}
+			if !reflect.DeepEqual(pb.Clauses, cls) {
+				return fmt.Errorf("explain.ParseCNF read %v from a text with a %d-byte comment line, the clauses are %v", pb.Clauses, longest, cls)
+			}
+			return nil
+		}
+		pb, err := solver.ParseCNF(strings.NewReader(sb.String()))
+		if err != nil {
+			return fmt.Errorf("solver.ParseCNF returns an error on a text with a %d-byte comment line: %v", longest, err)
+		}
+		want := oracle.Models(3, oracle.CNFPred(cls))
+		if got := oracle.Models(3, gs.ProblemPred(pb)); pb.NbVars != 3 || !reflect.DeepEqual(got, want) {
+			return fmt.Errorf("solver.ParseCNF: %d variables and %d models read from a text with a %d-byte comment line; the text has 3 variables and %d models", pb.NbVars, len(got), longest, len(want))
+		}
 	case "explain":
 		sb.WriteString(fmt.Sprintf("p cnf %d 2\n", c.N))
 		var want []int
@@ -489,7 +539,7 @@ func checkLong(c LongCase, o *vf.Obs) error {
 }
 
 func genLong(t *rapid.T) LongCase {
-	c := LongCase{Format: rapid.SampledFrom([]string{"opb", "wcnf", "explain"}).Draw(t, "format")}
+	c := LongCase{Format: rapid.SampledFrom([]string{"opb", "wcnf", "explain", "cnf-comment", "cnf-comment", "explain-comment"}).Draw(t, "format")}
 	c.A, c.B = rapid.IntRange(1, 8).Draw(t, "a"), rapid.IntRange(0, 8).Draw(t, "b")
 	switch c.Format {
 	case "opb":
@@ -497,6 +547,9 @@ func genLong(t *rapid.T) LongCase {
 		for i, k := 0, rapid.IntRange(0, 3).Draw(t, "forced"); i < k; i++ {
 			c.Forced = append(c.Forced, gen.Uniform(t, 1, c.N, "f"))
 		}
+	case "cnf-comment", "explain-comment":
+		c.N = gen.Uniform(t, 100, 1000, "n") // comment length = N*Repeat bytes: from 100 bytes to 80 KB
+		c.Repeat = rapid.SampledFrom([]int{1, 5, 8, 20, 80}).Draw(t, "repeat")
 	default:
 		c.N = gen.Uniform(t, 200, 1000, "n")
 		c.Repeat = 20000/c.N + rapid.IntRange(0, 12).Draw(t, "repeat") // about 5 bytes per literal: mostly beyond 64 KiB
@@ -531,8 +584,8 @@ func init() {
 			Rule: "OPB text written from a PB problem (coefficients of either sign, >= / = / <= (as negated >=), trivially true/false constraints, optional min: line with signed coefficients) with layout knobs: '*' comments, explicit '+' or not, several blanks, CRLF, blank lines, optional final newline, and the zero-space forms the grammar allows ('>=0', '0;', 'min:+1'); oracle: parsed problem evaluated without solving has the text's models; Optimal = brute-force optimum; for up to 3 drawn assignments the text extended with unit constraints pinning the assignment yields exactly that assignment's cost, or Unsat when it violates a constraint; non-trivial as above"}
 	subWCNF = vf.Sub[WCNFCase]{Name: "wcnf", Quick: 8000, Thorough: 100000, Gen: genWCNF, Check: checkWCNF, Floor: 0.3,
 			Rule: "WCNF text (p wcnf V C [top], one weighted clause per line) with 'c' comments, several blanks, CRLF, optional final newline; oracle: Optimal = brute-force minimum weight of violated soft clauses; pinned assignments (unit hard clauses) give their exact cost or Unsat; non-trivial as above"}
-	subLong := vf.Sub[LongCase]{Name: "long-lines", Quick: 10, Thorough: 40, Gen: genLong, Check: checkLong, Floor: 0,
-		Rule: "texts with a line of more than 64 KiB: an OPB objective / clause over 3000..9000 variables, a WCNF hard clause or a DIMACS clause (for explain.ParseCNF) whose literal list is repeated; the meaning is known by construction (optimum = weight of the forced variables, or the smallest weight; clause list read back as written); non-trivial = the longest line exceeds 65536 bytes"}
+	subLong := vf.Sub[LongCase]{Name: "long-lines", Quick: 24, Thorough: 100, Gen: genLong, Check: checkLong, Floor: 0,
+		Rule: "texts with very long lines: DIMACS comment lines of 100 bytes to 80 KB (words, or numbers that would read as clauses) for both DIMACS readers, and lines of more than 64 KiB: an OPB objective / clause over 3000..9000 variables, a WCNF hard clause or a DIMACS clause (for explain.ParseCNF) whose literal list is repeated; the meaning is known by construction (optimum = weight of the forced variables, or the smallest weight; clause list read back as written); non-trivial = the longest line exceeds 65536 bytes (4096 for comments)"}
 	vf.Register(subDimacsSolver, subDimacsExplain, subOPB, subWCNF, subLong)
 }
 
